@@ -3,7 +3,7 @@
 # /verif/seeded/<id>-<x>/, then run the listed properties' checks (default: <id>) against the patched worktree.
 ID=$1; X=$2; shift 2; PROPS=${@:-$ID}
 # ROUND=2 in the environment selects the second round of seeds (out2_<id>/, stored as <id>-r2<x>)
-if [ "${ROUND:-1}" = "7" ]; then SRC=/tmp/seedwork/out7_$ID/$X; DST=/verif/seeded/$ID-r7$X; TAG=$ID-r7$X; elif [ "${ROUND:-1}" = "6" ]; then SRC=/tmp/seedwork/out6_$ID/$X; DST=/verif/seeded/$ID-r6$X; TAG=$ID-r6$X; elif [ "${ROUND:-1}" = "5" ]; then SRC=/tmp/seedwork/out5_$ID/$X; DST=/verif/seeded/$ID-r5$X; TAG=$ID-r5$X; elif [ "${ROUND:-1}" = "4" ]; then SRC=/tmp/seedwork/out4_$ID/$X; DST=/verif/seeded/$ID-r4$X; TAG=$ID-r4$X; elif [ "${ROUND:-1}" = "3" ]; then SRC=/tmp/seedwork/out3_$ID/$X; DST=/verif/seeded/$ID-r3$X; TAG=$ID-r3$X; elif [ "${ROUND:-1}" = "2" ]; then SRC=/tmp/seedwork/out2_$ID/$X; DST=/verif/seeded/$ID-r2$X; TAG=$ID-r2$X; else SRC=/tmp/seedwork/out_$ID/$X; DST=/verif/seeded/$ID-$X; TAG=$ID-$X; fi
+if [ "${ROUND:-1}" = "8" ]; then SRC=/tmp/seedwork/out8_$ID/$X; DST=/verif/seeded/$ID-r8$X; TAG=$ID-r8$X; elif [ "${ROUND:-1}" = "7" ]; then SRC=/tmp/seedwork/out7_$ID/$X; DST=/verif/seeded/$ID-r7$X; TAG=$ID-r7$X; elif [ "${ROUND:-1}" = "6" ]; then SRC=/tmp/seedwork/out6_$ID/$X; DST=/verif/seeded/$ID-r6$X; TAG=$ID-r6$X; elif [ "${ROUND:-1}" = "5" ]; then SRC=/tmp/seedwork/out5_$ID/$X; DST=/verif/seeded/$ID-r5$X; TAG=$ID-r5$X; elif [ "${ROUND:-1}" = "4" ]; then SRC=/tmp/seedwork/out4_$ID/$X; DST=/verif/seeded/$ID-r4$X; TAG=$ID-r4$X; elif [ "${ROUND:-1}" = "3" ]; then SRC=/tmp/seedwork/out3_$ID/$X; DST=/verif/seeded/$ID-r3$X; TAG=$ID-r3$X; elif [ "${ROUND:-1}" = "2" ]; then SRC=/tmp/seedwork/out2_$ID/$X; DST=/verif/seeded/$ID-r2$X; TAG=$ID-r2$X; else SRC=/tmp/seedwork/out_$ID/$X; DST=/verif/seeded/$ID-$X; TAG=$ID-$X; fi
 WT=/tmp/seedwork/wt_$ID
 mkdir -p /verif/.build/seedlog; LOG=/verif/.build/seedlog/$TAG.log
 {
